@@ -186,7 +186,11 @@ def mutate(s, m):
     else:
         raise ValueError(cl)
     t = render(s, head, body)
-    return post(t) if post else t
+    t = post(t) if post else t
+    if m.get("stretch"):
+        import re
+        t = re.sub(r"(?<![A-Za-z0-9_])%s(?![A-Za-z0-9_])" % re.escape(m["lexeme"]), m["lexeme"] + "x" * m["stretch"], t)
+    return t
 
 
 def _nth_replace(t, old, new, n):
